@@ -173,31 +173,33 @@ def run(p: Program, rep: Report, tier: str) -> None:
     rep.require_instances("R4.1", 25)
 
     # ---------------------------------------------------------------- R4.2 function pairs
+    # The unit of comparison is a PUBLIC definition together with everything private that only exists to serve it: its nested
+    # functions, the private functions / methods it calls (folded by sibling.fingerprint) or hands on as values, and the
+    # methods of private holder classes it instantiates. Moving code between those - on one side or on both - leaves the
+    # unit's multiset of effects unchanged.
     pairs: List[Tuple[str, FuncInfo, FuncInfo]] = []
+    members: Dict[str, List[FuncInfo]] = {}
     for mod in SIB_MODULES:
-        wf, af = sib_funcs(p, "wsgi", mod), sib_funcs(p, "asgi", mod)
+        wu, au = _units(p, "wsgi", mod), _units(p, "asgi", mod)
         used_a: Set[str] = set()
-        for q, f in sorted(wf.items()):
+        for q, ms in sorted(wu.items()):
+            f = ms[0]
             tgt = RENAMED.get((mod, q), q)
-            if tgt in af:
+            if tgt in au:
                 used_a.add(tgt)
-                if _is_folded_helper(p, f) and _is_folded_helper(p, af[tgt]):
-                    rep.ok("R4.2", f"{mod}.{q}: private helper on both sides, compared inside its callers")
-                else:
-                    pairs.append((mod, f, af[tgt]))
+                pairs.append((mod, f, au[tgt][0]))
+                members[f.fq] = ms
+                members[au[tgt][0].fq] = au[tgt]
             elif ("wsgi", mod, q) in ONE_SIDED_OK:
                 rep.ok("R4.2", f"{mod}.{q}: WSGI only ({ONE_SIDED_OK[('wsgi', mod, q)]})")
-            elif _is_folded_helper(p, f):
-                rep.ok("R4.2", f"{mod}.{q}: private helper, its effects are compared inside its callers")
             else:
                 rep.violation("R4.2", construct(f, text="one-sided definition"), f.loc, f"{f.fq} has no ASGI sibling (a behaviour defined on one interface only)")
-        for q, f in sorted(af.items()):
+        for q, ms in sorted(au.items()):
             if q in used_a:
                 continue
+            f = ms[0]
             if ("asgi", mod, q) in ONE_SIDED_OK:
                 rep.ok("R4.2", f"{mod}.{q}: ASGI only ({ONE_SIDED_OK[('asgi', mod, q)]})")
-            elif _is_folded_helper(p, f):
-                rep.ok("R4.2", f"{mod}.{q}: private helper, its effects are compared inside its callers")
             else:
                 rep.violation("R4.2", construct(f, text="one-sided definition"), f.loc, f"{f.fq} has no WSGI sibling (a behaviour defined on one interface only)")
     mh = p.module("baize.multipart_helper")
@@ -219,21 +221,21 @@ def run(p: Program, rep: Report, tier: str) -> None:
     n_a = n_b = 0
     for mod, f, g in pairs:
         rep.analysed(f.fq, g.fq)
-        if tier_a_equal(f, g):
+        mf, mg = members.get(f.fq, [f]), members.get(g.fq, [g])
+        rel = lambda root, m: m.qualname[len(root.qualname):] if m.qualname.startswith(root.qualname) else m.qualname  # noqa: E731
+        same_members = sorted(rel(f, m) for m in mf) == sorted(rel(g, m) for m in mg) or (len(mf) == 1 and len(mg) == 1)
+        if same_members and tier_a_equal(f, g) and all(tier_a_equal(a_, b_) for a_, b_ in zip(sorted(mf[1:], key=lambda m: rel(f, m)), sorted(mg[1:], key=lambda m: rel(g, m)))):
             n_a += 1
-            rep.ok("R4.2", f"{mod}.{f.qualname}: normalised ASTs equal (tier A)")
+            rep.ok("R4.2", f"{mod}.{f.qualname}: normalised ASTs equal (tier A{', with ' + str(len(mf) - 1) + ' private members' if len(mf) > 1 else ''})")
             continue
         n_b += 1
-        fw, fa = _strip_gateway_guards(fingerprint(f, names)), _strip_gateway_guards(fingerprint(g, names))
+        fw, fa = _strip_gateway_guards(_unit_fingerprint(mf, names)), _strip_gateway_guards(_unit_fingerprint(mg, names))
         only_w = fw - fa
         only_a = fa - fw
-        sanc = GATEWAY + SANCTIONED.get((mod, f.qualname), [])
-        if f.parent is not None and (mod, f.qualname) not in SANCTIONED:
-            # a nested function's name is a local name: fall back to the sanctions recorded for the nested functions of its parent
-            pq = f.parent.qualname + "."
-            for (m_, q_), lst in SANCTIONED.items():
-                if m_ == mod and q_.startswith(pq):
-                    sanc = sanc + lst
+        sanc = list(GATEWAY)
+        for (m_, q_), lst in SANCTIONED.items():
+            if m_ == mod and (q_ == f.qualname or q_.startswith(f.qualname + ".")):
+                sanc = sanc + lst
         # the return-shape sanction is for code that talks to the gateway (application callables, generators, coroutines
         # awaiting the channel); a plain accessor that takes no gateway object must return the same shape on both sides
         def _gw(fi) -> bool:
@@ -259,6 +261,8 @@ def run(p: Program, rep: Report, tier: str) -> None:
     for mod in SIB_MODULES:
         wm, am = p.module(f"baize.wsgi.{mod}"), p.module(f"baize.asgi.{mod}")
         for cname, wc in wm.classes.items():
+            if _private_class(wc):
+                continue  # a private holder class is compared through the units that use it
             ac = am.classes.get(cname)
             if ac is None:
                 if ("wsgi", mod, cname) not in ONE_SIDED_OK:
@@ -281,6 +285,8 @@ def run(p: Program, rep: Report, tier: str) -> None:
             if wb != ab:
                 rep.violation("R4.3", construct(f"baize.*.{mod}:{cname}", text=f"bases {wb} | {ab}"), f"{wc.loc} vs {ac.loc}", f"{cname} has different base classes on the two interfaces")
         for cname, ac in am.classes.items():
+            if _private_class(ac):
+                continue
             if cname not in wm.classes and ("asgi", mod, cname) not in ONE_SIDED_OK:
                 rep.violation("R4.2", construct(ac, text="one-sided class"), ac.loc, f"class {ac.fq} has no WSGI sibling")
     rep.require_instances("R4.3", 6)
@@ -361,6 +367,84 @@ def _strip_gateway_guards(fp: Counter) -> Counter:
             it = it[:-1] + (g,)
         out[it] += n
     return out
+
+
+def _private_class(ci) -> bool:
+    return ci is not None and ci.name.startswith("_") and not ci.name.startswith("__")
+
+
+def _units(p: Program, side: str, mod: str) -> Dict[str, List[FuncInfo]]:
+    """unit root qualname -> [root, members...] for one sibling module"""
+    m = p.module(f"baize.{side}.{mod}")
+    out: Dict[str, List[FuncInfo]] = {}
+    for f in m.all_funcs:
+        if f.parent is not None:
+            continue
+        if _private_class(f.cls):
+            continue  # methods of a private holder class belong to the units that create it
+        if _is_folded_helper(p, f) or _is_referenced_private(m, f):
+            continue
+        out[f.qualname] = [f]
+    for q, ms in out.items():
+        root = ms[0]
+        seen = {root.fq}
+        todo = [root]
+        while todo:
+            cur = todo.pop()
+            # nested definitions
+            for g in m.all_funcs:
+                if g.fq not in seen and g.parent is not None and g.qualname.startswith(cur.qualname + "."):
+                    seen.add(g.fq)
+                    ms.append(g)
+                    todo.append(g)
+            for n in ast.walk(cur.node):
+                # private classes created here: all their methods
+                if isinstance(n, ast.Call) and isinstance(n.func, ast.Name) and n.func.id in m.classes and _private_class(m.classes[n.func.id]):
+                    for meth in m.classes[n.func.id].methods.values():
+                        if meth.fq not in seen:
+                            seen.add(meth.fq)
+                            ms.append(meth)
+                            todo.append(meth)
+                # private functions / methods handed on as values (submit(self._push, ...), partial(_send, ...)): not folded by calls
+                ref = None
+                if isinstance(n, ast.Attribute) and isinstance(n.value, ast.Name) and n.value.id in ("self", "cls") and isinstance(n.ctx, ast.Load):
+                    owner = cur
+                    while owner.cls is None and owner.parent is not None:
+                        owner = owner.parent
+                    if owner.cls is not None:
+                        ref = p.find_method(owner.cls, n.attr)
+                elif isinstance(n, ast.Name) and isinstance(n.ctx, ast.Load) and n.id in m.functions:
+                    ref = m.functions[n.id]
+                if ref is not None and ref.fq not in seen and ref.module is m:
+                    from ..sibling import is_private_helper
+                    par = getattr(n, "_parent", None)
+                    called = isinstance(par, ast.Call) and par.func is n
+                    if is_private_helper(ref) and not called:
+                        seen.add(ref.fq)
+                        ms.append(ref)
+                        todo.append(ref)
+    return out
+
+
+def _is_referenced_private(m, f: FuncInfo) -> bool:
+    """a private function / method that is only handed on as a value (never called by name) in its module"""
+    from ..sibling import is_private_helper
+    if not is_private_helper(f):
+        return False
+    for n in ast.walk(m.tree):
+        if isinstance(n, ast.Attribute) and n.attr == f.name and isinstance(n.ctx, ast.Load):
+            return True
+        if isinstance(n, ast.Name) and n.id == f.name and isinstance(n.ctx, ast.Load):
+            return True
+    return False
+
+
+def _unit_fingerprint(ms: List[FuncInfo], names) -> "Counter":
+    from collections import Counter
+    fp: Counter = Counter(fingerprint(ms[0], names))
+    for mem in ms[1:]:
+        fp.update(fingerprint(mem, names, 1))  # private members: effects only (their parameters and return shape are not behaviour)
+    return fp
 
 
 def _is_folded_helper(p: Program, f: FuncInfo) -> bool:
